@@ -116,7 +116,8 @@ Definition crd (s : st) : Prop :=
   (forall j, hidx (M s) <= j -> j < ck c -> brdy (blkof s (ghk (G s))) (j - ghk (G s) * B) = true) /\
   cacc c = map (rv s) (seq (hidx (M s)) (length (cacc c))).
 Definition popbulk (o : op) : Prop := o = OPop \/ o = OBulk.
-Definition dropst (s : st) : Prop := cdrop (C s) = true /\ ghk (G s) = gtk (G s).
+Definition dropst (s : st) : Prop :=
+  cdrop (C s) = true /\ ghk (G s) = gtk (G s) /\ hidx (M s) = gtk (G s) * B + ti (M s).
 
 Definition cinv (s : st) : Prop :=
   let c := C s in let m := M s in let g := G s in
@@ -139,7 +140,7 @@ Definition cinv (s : st) : Prop :=
   | DFree1 => dropst s /\ cblk c = badr g (gtk g) /\ cnx c = badr g (S (gtk g))
   | DFree2 => dropst s /\ cblk c = badr g (gtk g)
   | DOld => dropst s
-  | CDead => dropst s
+  | CDead => dropst s /\ glo g = ghk g
   end.
 
 (* head position: inside the head block, or - between the commit at a block end and head.block.store - exactly at its end *)
